@@ -456,6 +456,14 @@ def run(ctx):
         rule = ["RandomDictator", "BoostedRandomDictator"][i % 2]
         n = rnd.randint(1, 5)
         spec = gen.ranked(rnd, n=n, ties=rnd.random() < 0.6, maxb=6)
+        if i % 6 == 1:
+            # the laws depend on shares only: the same profile with every weight multiplied by 10^-12 .. 10^15
+            spec = gen.rescaled(spec, rnd.choice(gen.FACTORS))
+            ctx.count("rescaled_profiles")
+        elif i % 29 == 0:
+            spec, _ = gen.scale(rnd, mode=rnd.choice(["plain", "huge", "tiny"]))
+            n = len(spec["cands"])
+            ctx.count("large_profiles")
         m = rnd.randint(1, min(3, n))
         ctx.guard("law", check_law, ctx, {"kind": "law", "cfg": {"rule": rule, "m": m}, "profile": spec}, max_runs)
         if i % 2 == 0:
